@@ -258,6 +258,29 @@ def string_decoders(res, prog):
                     res.violation('C02.5', 'C02.5|%s|%s' % (f.qual, n.split('::')[-1]), f, t.get('line'), '%s decodes native-endian u16 units (and from_utf16_lossy replaces malformed input): the dump\'s byte order is not honoured' % n)
 
 
+def default_context_reads(res, prog):
+    """C02.1c: scroll's context-less reads (`pread`, `gread`, `gread_inout`, `pwrite`, ..) use `Ctx::default()`, i.e.
+    the *host's* byte order for scroll::Endian.  In the reading crates they may only be used for types one byte wide."""
+    res.rule('C02.1c', 0, floor=1, note='context-less scroll reads (host byte order) only for single-byte types')
+    BYTE = {'u8', 'i8', 'bool'}
+    for cn in ('minidump', 'minidump_common'):
+        for f in prog.crate(cn).fns:
+            if f.mac and f.mac.startswith('derive('):
+                continue
+            for b, t in f.calls():
+                d = f.callee_decl(t) or ''
+                m = re.search(r'scroll::(Pread|Pwrite)::(pread|gread|gread_inout|pwrite|gwrite|gwrite_inout)$', d)
+                if not m:
+                    continue
+                targs = t.get('targs') or []
+                if 'scroll::Endian' not in targs:
+                    continue    # a context type without byte order (e.g. a length for &[u8])
+                res.rule('C02.1c', 1)
+                ty = (targs[-1] if targs else '').lstrip('&')
+                if ty not in BYTE:
+                    res.violation('C02.1c', 'C02.1c|%s|%s' % (f.qual, ty), f, t.get('line'), '%s::<%s>() reads with the default context, i.e. in the byte order of the machine running the parser, not of the dump' % (m.group(2), ty))
+
+
 def run(tier, t0):
     res = harness.Result(PID)
     prog = program()
@@ -266,6 +289,7 @@ def run(tier, t0):
     layouts(res, prog)
     last_wins(res, prog)
     string_decoders(res, prog)
+    default_context_reads(res, prog)
     res.assumptions += [
         'scroll reads a field with the endianness it is given and derive(Pread)/derive(SizeWith) walk the same field list (trusted crate)',
         'field offsets and padding against the serializer, identifier derivation and memory contents are NOT decided (they relate values to values)',
